@@ -40,8 +40,9 @@ claim('C04',
 
 claim('C05',
       'Pollard clause: for all distinct odd primes, every product m and gcd bound, if p-1 and q-1 share g >= bound with g | m and (p-1) | (n-1)m '
-      'then Pollardpm1 flags n, with factors [p,q] unless 2^((n-1)m) = 1 mod q as well — then flagged without factors, in particular when (q-1) | (n-1)m (Props/C05.lean pollard_flag, stated for an ARBITRARY m). Which g divide the product the constructor really builds is characterised exactly for the documented exponents (Props/C05Pollard.lean defaultM_dvd_iff: every prime power r^k of g has r^k <= 2^64 for r <= 863, k = 1 for 863 < r < 2^20; userM_dvd_iff; bound 0 is the default product), giving pollard_default_flag, pollard_default_flag_of_smooth, pollard_default_both_smooth and pollard_user_flag. The float int(math.log(bound, p)) is an oracle compared with the documented exponents on every run. '
-      'PROPERTY-TEXT LIMITATION: "share a 2^20-smooth factor of at least 2^60" is not sufficient: g = 1009^7 is 2^20-smooth and >= 2^60, but the default product contains 1009 only once and Pollardpm1 returns (False, []) for n = (24g+1)(2*1048721*g+1) (C05Pollard.literal_text_fails with Pratt-certified primes, smooth_not_enough; reproduced on the implementation every run); the clause is read as "share a factor of at least 2^60 that divides the Pollard product". Lattice families: fraction_post — if the LLL basis contains a row whose value '
+      'then Pollardpm1 flags n, with factors [p,q] unless 2^((n-1)m) = 1 mod q as well — then flagged without factors, in particular when (q-1) | (n-1)m (Props/C05.lean pollard_flag, stated for an ARBITRARY m). Which g divide the product the constructor really builds is characterised exactly for EVERY exponent list the float expression int(math.log(bound, p)) may return (Props/C05PollardExps.lean product_dvd_iff: every prime power r^k of g has k <= the entry of the list at r\'s position in the sieve; pollard_flag_exps), and in readable form for the documented exponents (Props/C05Pollard.lean defaultM_dvd_iff: r^k <= 2^64 for r <= 863, k = 1 for 863 < r < 2^20; userM_dvd_iff; bound 0 is the default product). On every run the exponent list the real constructor used is determined; for the DEFAULT product it must be the documented one (a violation otherwise), so pollard_default_flag / _of_smooth / _both_smooth (non-vacuity: both_smooth_witness) are about the real default check. '
+      'For user bounds the float exponent is one below floor(log_p bound) at the prime powers 243, 4913, 29791, 59049, 68921, 571787 (all bounds <= 2^20 enumerated): there the real product lacks one factor p, userM_dvd_iff / pollard_user_flag describe the documented product only, and bound243_documented_vs_real is a kernel-checked key (Pratt-certified primes) satisfying every hypothesis of pollard_user_flag that the real CheckPollardpm1(243) does not flag — an OBSERVATION on the user-bound path (patch fixes/pollard-user-bound-exponent.diff), not a C05 violation: the clause of C05 is about the default Pollard product. Constructor arguments outside Option Nat (negative: ValueError, float: TypeError, True: m = 1) are recorded on the implementation only. '
+      'PROPERTY-TEXT LIMITATION: "share a 2^20-smooth factor of at least 2^60" is not sufficient: g = 1009^7 is 2^20-smooth and >= 2^60, but the default product contains 1009 only once and Pollardpm1 returns (False, []) for n = (24g+1)(2*1048721*g+1) (C05Pollard.literal_text_fails with Pratt-certified primes, smooth_not_enough; reproduced on the implementation every run); the clause is read as "share a factor of at least 2^60 that divides the Pollard product". The limitation rests on reading "smooth enough" as (p-1) | (n-1)m (what Pollardpm1 needs); under the reading (p-1) | m the literal clause holds for any shared factor >= 2^60 (C05PollardExps.literal_clause_of_pm1_dvd; the witness has (p-1) not dividing m: literal_witness_not_dvd). The kernel witness has 166 bits; a 1024-bit witness is evaluated on the implementation every run. Lattice families: fraction_post — if the LLL basis contains a row whose value '
       'is a multiple of p and not of q, CheckFraction returns both primes, for every other content of the basis; soundness for every basis is C01. Check-level models of CheckBitPatterns / '
       'CheckPermutedBitPatterns / CheckPollardpm1 / CheckLowHammingWeight / CheckContinuedFractions (Model/RsaChecks.lean: which denominators are tried, in which order, first success wins, '
       'UNKNOWN severity when unfactored) are tied to the real Check objects on protobuf keys by correspondence with recorded LLL answers. NOT claimed: that LLL finds the planted vector (oracle; bit-pattern and permuted-limb clauses); that the best-first Hamming-weight search succeeds for weight <= 32 (heuristic; no theorem beyond soundness — evaluated on the implementation with default parameters every run); that a flagged two-pattern key is also factored.',
@@ -507,9 +508,9 @@ _add('C04', 'The equal-high-and-low-bits clause is now a theorem too (Props/C04H
 _add('C05', 'The PRE half of the lattice sandwich is proved (Props/C05Pre.lean): for p = (a*w + c)/d the vector (c*x, -a*x, c*e) is an explicit integer combination of the rows of the lattice CheckFraction builds, with entry bounds 2|c|d, 2|a|d, |c|(|c|m + d - 1) '
             '(fraction_pre, fraction_vector_small = the docstring\'s derivation), its value is x*d*p (fraction_vector_value), so any basis containing +- that row yields both primes (fraction_sandwich); a w-bit word repeated k times apart from t low bits has exactly this form with '
             'd = 2^w - 1 and |c| < 2^(w+t) (repetition_is_fraction, repetition_sandwich); the denominators tried by CheckBitPatterns / CheckPermutedBitPatterns are exactly the documented lists, first success wins (bitpatterns_enum, permuted_enum, tried_first_success). '
-            'Permuted limbs (Props/C05Permuted.lean): a ps-bit word (ps odd) written from the top over 2M ws-bit limbs with adjacent limbs swapped, plus a deviation delta, satisfies D*p = a*2^h + c for the check\'s denominator D = (2^ps-1)(2^(ps*ws)+1)/(2^ws+1), with explicit a, c and |A_s| < 2(2^ws+1)D (permuted_is_fraction, permuted_sandwich). Cut, non-aligned repetitions of any word size are covered by cut_repetition_is_fraction / cut_repetition_sandwich. '
+            'Permuted limbs (Props/C05Permuted.lean): a ps-bit word (ps odd) written from the top over 2M ws-bit limbs with adjacent limbs swapped, plus a deviation delta, satisfies D*p = a*2^h + c for the check\'s denominator D = (2^ps-1)(2^(ps*ws)+1)/(2^ws+1), with explicit a, c and |A_s| < 2(2^ws+1)D (permuted_is_fraction, permuted_sandwich) — for EVERY odd ps, no hypothesis ps < ws. CheckPermutedBitPatterns tries only ws in {8,16,32,64}, 3 <= ps < ws odd, bits(D) <= bitlen/8 (C05PermutedRegion.permuted_tried_region); the property\'s family also contains ps >= ws (8-bit limbs, w = 9, 11, 13, 15, 31), never tried: KNOWN FINDING D25 (d25_witness: 1024-bit replay input factored by no check, although CheckFraction(n, D(8,11)) factors it: d25_would_be_factored; patch fixes/permuted-psize-range.diff proposed, it repairs every measured cell except 1024 bits / w = 11 with more than ~20 deviating bits). Cut, non-aligned repetitions of any word size are covered by cut_repetition_is_fraction / cut_repetition_sandwich. '
             'The continued-fraction clause is PROVED without oracle (Props/C05Cf.lean cf_clause_default): both primes odd, each a word of <= 64 bits cut to L >= 512 bits plus a deviation < 2^32, then CheckContinuedFractions() flags the key (via CfLarge.euclid_large_quot: a rational within E/(bd) of a/b with (K+3)Ed <= b+E forces a partial quotient >= K). Unproved links that remain: (1) LLL returns +- the planted vector; (2) the low-Hamming-weight search. '
-            'Completeness clauses are evaluated on the implementation for planted members of every family on every run (cut repetitions for every default w, swapped limbs, two patterned primes, exact Hamming weights 16 / 32, Pollard families with prime powers inside / at / beyond the exponent limits); a miss inside the property region is a violation (measured before gating: 15783 bit-pattern keys 0 misses, 899/899 permuted, 2881/2881 two-pattern flagged, 136/136 low-weight flagged); permuted limbs with bitlen/10 < bits(D) <= bitlen/8 are missed in 42 of 129 measured keys (outside the property).')
+            'Completeness clauses are evaluated on the implementation for planted members of every family on every run (cut repetitions for every default w, swapped limbs, two patterned primes, exact Hamming weights 16 / 32, Pollard families with prime powers inside / at / beyond the exponent limits); a miss inside the property region is a violation (measured before gating: 15783 bit-pattern keys 0 misses, 899/899 permuted with 3 <= ps < ws (ps >= ws keys are statistics plus the fixed D25 probe), 2881/2881 two-pattern flagged, 136/136 low-weight flagged); permuted limbs with bitlen/10 < bits(D) <= bitlen/8 are missed in 42 of 129 measured keys (outside the property).')
 _add('C11', 'Primality of all 18 curve constants (field primes and group orders of the nine curves) is no longer a hypothesis: kernel-checked Pratt certificates regenerated with the constants (Props/C11Primes.lean, curve_primes_certified; factorisations cached in harness/consts/pratt_cache.json are hints, the kernel re-checks every certificate), '
             'hence hypothesis-free: G has order exactly n and the curve is elliptic over the field ZMod p for every named curve (generator_order_certified, curves_elliptic_certified).')
 _add('C16', 'END TO END: the verdict oracle is instantiated by the per-check models for all three entry points (Props/C16RsaAll.lean, Props/C16EcAll.lean): checkAllRSA_entries / checkAllEC_entries / checkAllECDSA_entries (exactly the registry entries in registry order with the documented severities, weak iff some entry positive, return iff some artefact weak), '
@@ -566,10 +567,10 @@ _add('C14', 'Props/C14Wrapper.lean (17 theorems) closes the wrapper glue: int.to
 _add('C20', 'TOTAL-correctness form (Props/C20Total.lean, 19 theorems; review finding F14): decidable entryOk on the constructor parameters (TruncLcgRand k >= 1; Mwc b = 256^j, j >= 1; Lehmer bits a positive multiple of 8 and mod > 0; SubsetSum bits a positive multiple of 8 and k >= 1); entry_total: entryOk => constructor and RandomBits(n, seed) RETURN r for every n >= 0 and seed, with r < 2^n '
             '(shipped TruncLcgRand: the D5 bound; SubsetSum: under the explicit oracle hypothesis that os.urandom answers ceil(n/bits) times with a non-zero subset sum — subsetSum_returns_iff shows this is exactly the criterion); entry_not_ok: otherwise, for n >= 1, exactly ValueError (constructor), ZeroDivisionError (TruncLcgRand(0), Mwc(a,1), Lehmer(mod=0)) or NON-TERMINATION '
             '(Lehmer(bits=0, mod != 0), SubsetSum(bits,0), SubsetSum(0,k): lehmer_bits_zero_never_terminates, subsetSum_never_ends over the literal while loops; lehmer_while_is_for: the while loop is the model\'s for loop); entry_n_zero; registry_entries_ok: every bundled registry entry is entryOk, so the property (which quantifies over the registry) is unaffected — the three diverging constructors are an observation, patch proposed in fixes/rng-nonterminating-constructors.diff, not applied.')
-_add('C08', 'COMPOSED CHAIN (Props/C08Chain.lean, 20 theorems, examples Props/C08ChainEx.lean; review finding F8): for the call the checks make (w = None; getLattice_none, default weights defaultW), for every prime n, key d < n, values (r,s,z) with s invertible signed with d (s*k = z + r*d mod n): sandwich_/sigs_/chain_{msb, prefix, postfix, generalized}, sandwich_cr50/chain_cr50, sandwich_lcg/chain_lcg prove '
+_add('C08', 'COMPOSED CHAIN (Props/C08Chain.lean, 19 theorems, examples Props/C08ChainEx.lean; review finding F8): for the call the checks make (w = None; getLattice_none, default weights defaultW), for every prime n, key d < n, values (r,s,z) with s invertible signed with d (s*k = z + r*d mod n): sandwich_/sigs_/chain_{msb, prefix, postfix, generalized}, sandwich_cr50/chain_cr50, sandwich_lcg/chain_lcg prove '
             '(PRE) the planted row — MSB (n*w+1, d, k_i*w); prefix (n*w+1, d, e_i*w) with k = top+e, |e| < 2^(bl-bits); postfix (n*w+1, d, h_i*w) with k = low + 2^beta*h, beta = max(3, float oracle), n odd; generalized (m, y, e_i*w) for any representatives m of the multiplier and y = m*d; Cr50 (c1, c2, -256, 0); LCG (n*w+1, d, e_t*w) over the flattened list of one yielded subset — is an explicit integer combination of the rows of the lattice built, with entries below 2^(bl-bits)*w; '
             '(POST) IF the lll.reduce answer contains +- that row THEN the solver model returns a list containing d (side condition n not dividing +-T0 discharged); (CHECK) with the check layer\'s solver oracle instantiated by the solver models (SolvedGroup, evaluable solvedGroupB), every signature of the batch with that curve and issuer key tuple is marked weak with DISCRETE_LOG = format(d, "x") — d itself, since every model guess is < n. The curve-side hypotheses hold for CURVE_FACTORY by named_curves_ok (certified primes); hnp_total_prime: the solver model never raises on the calls the bias checks make. '
-            'STILL ORACLE: "lll.reduce returns a basis containing +- the planted row" (Lovasz / short-vector argument not formalised); counted per run on the real checks with LLL recorded inside the solver calls (extra.chain_statistics: in seeds 1-3 every key found came with the planted row in the LLL answer: 526/526 solver-level, 108/108 check-level). The default COMMON_POSTFIX weight exploits only beta = max(3, floor(1.25*bl/len)) of the common low bits and needs bits >= beta; for GENERALIZED the row LLL returns belongs to a small multiple of the secret multiplier; the LCG statement is about c_j*k_i - d_j mod n being small, not about the generator.')
+            'STILL ORACLE: "lll.reduce returns a basis containing +- the planted row" (Lovasz / short-vector argument not formalised); counted per run on the real checks with LLL recorded inside the solver calls, as LITERAL integer rows (extra.chain_summary; seeds 1-3: solver level 526/526 key-found runs contain the literal row of the generalised theorems below — key position d 235, d-n 232, generalized 59; check level 114/114 — d 44, d-n 34, generalized 12, Cr50 24; no other representative, no key through another row). The default COMMON_POSTFIX weight exploits only beta = max(3, floor(1.25*bl/len)) of the common low bits and needs bits >= beta; for GENERALIZED the row LLL returns belongs to a small multiple of the secret multiplier; the LCG statement is about c_j*k_i - d_j mod n being small, not about the generator.')
 _add('C02', 'Props/C02Cert.lean: primality of the nine field moduli and group orders is kernel-checked, no longer a hypothesis (namedFactory_ok_certified, dlogs_sound_named: clauses 1 and 2 for every curve of namedCurves with no hypothesis on the curve). Clause (2) for keys that HAVE a private key: for an on-curve P = d*G (any integer d) a recorded v satisfies v*G = P and v = d mod n (extendedBatchDL_sound_of_privateKey, checkAllEC_dlogs_sound_priv) — n*P = 0 then follows from n*G = 0; '
             'for a general on-curve point the hypothesis n*P = 0 remains: it needs #E(F_p) = n for the nine named curves (SEC 2 / RFC 5639; NOT proved — no point counting in Mathlib; trusted only for that form). Clause (2) holds whatever the other keys of the batch are (C10Any); clause (3) for calls in which every point is finite and on the curve, with off-curve neighbours search-level only.')
 _add('C10', 'Props/C10Cert.lean, Props/C10Any.lean: curve_factory_hyp_certified / curve_factory_orders_prime (no primality hypothesis left); checkWeakECPrivateKey_spec_priv (keys with a private key, F10); wkHyp_named_nonfresh / sdHyp_named_nonfresh (non-vacuity on the real factory with a non-fresh secp256r1 table evaluated by the kernel); checkWeakECPrivateKey_every_batch, batchDL_every_list (the guarantee for a key does not depend on its neighbours).')
@@ -603,3 +604,8 @@ _add('C08', 'KNOWN FINDING D23 (recorded, not repaired): at the property\'s own 
             'With 20-24 signatures in one window at the same product 2160 of 2160 measured instances on secp256r1 / secp256k1 / secp384r1 / secp521r1 x MSB / prefix / postfix are found: that region is gated on every run (a miss is a violation with the signature set as replay).')
 _add('C05', 'KNOWN FINDING D24 (recorded, not repaired): the clause "both primes have Hamming weight at most 32 => flagged" is false on the real best-first search for sparse primes that start with a run of one-bits — witness: a 1024-bit product of two primes of weight 15, CheckLowHammingWeight returns (False, []) (found by the second review, replayed every run). Primes with randomly placed bits were flagged 136/136; 8 leading ones + 3 random bits are missed in about 0.5 % of draws. '
             'The check therefore gates a FIXED corpus of low-weight keys that the unchanged tree flags (harness/corpus/c05_lhw.json; the search is deterministic, so no seed can raise a false alarm) and treats freshly drawn keys as statistics.')
+
+_add('C08', 'SECOND REVIEW (Props/C08ChainAny.lean, 19 theorems; real secp256r1 instances Props/C08ChainAnyEx.lean, 8 theorems): (M1) in Props/C08Chain.lean sigs_*/chain_* the key position of the planted row is the natural number d; fpylll leaves the CENTRED representative (d for 2d <= n, else d - n), so that hypothesis is false for every key above n/2 although the key is found. chain_*_any / sigs_*_any / chain_lcg_any take ANY integer x = d mod n; chain_bias_family the family {d, d-n} that occurs; the solver reduces mod n so the recorded key is d. '
+            'chain_bias_post: POST+CHECK need neither bias nor the signing relation (a row +-(T0,T1,..) with T1 = T0*d mod n, n not dividing T0 suffices) — hence the old chain_* also hold for unbiased nonces; all their content is the oracle hypothesis. (M2) what the bias buys is stated, not proved to suffice: PRE of every *_any theorem carries "tail entries < B(bits) = 2^(bl-bits)*w" (B strictly decreasing) and ScaleShort (2B)^M < n^(M-r) w^M (M = len for MSB/LCG, len-1 for prefix/postfix/generalized; r = 1, generalized 2), implied by the margin r*bl + 2M <= M*bits and FALSE for bits = 0 (short_forces_bias); '
+            'postfix in terms of beta = max(3, float oracle), Cr50 with |entry| <= 256 and (2*256)^D < 256 n, LCG with the caller\'s bound B on the actual entries. WeightOK n^r 2^M <= w^M is the key-coordinate half and is what fails in D23 (kernel-evaluated on the replay tuples). LLLReturnsShort / sigs_msb_of_lll_short: the oracle stated key-free, bias used. Hidden hypotheses made explicit: rows of the LLL answer have >= 2 entries (hrows); Setting.checked (the Check call returned); SolvedGroup for ALL issuers of the curve group; generalized: n does not divide mult. '
+            'chain_lcg_any is instantiated with the first shipped CONSTANT_FACTORY entry (Model/LcgShipped.lean, compared with /repo every run: op hnp.shipped) on a real CheckLCGNonceGMP run. STILL ORACLE: "lll.reduce returns the short row"; ScaleShort / WeightOK are sufficient-with-slack interface conditions (keys slightly outside are still found: extra.chain_statistics rows_found_outside_the_shortness_hypotheses).')
